@@ -1,8 +1,10 @@
 SPECIFICATION Spec
 CONSTANTS
+  UseStaticCfg = TRUE
+  StaticCfg <- DefaultCfg
   Dev = {"RefundTruncatedDust"}
   Family = "econ"
-  MaxLen = 14
+  MaxLen = 8
   Amts = {10, 101}
   Fees = {0, 3}
   Users = {"a1"}
